@@ -91,5 +91,30 @@ def selftest(ctx, prop, jobs=12):
             out["benign_silent"] = fired
             out["benign_false_alarm"] = missed
             out["benign_skipped"] = skipped
+    # the sub-agents' corpora: every kept seed of this property must fire, every benign refactoring must stay silent on it
+    import glob
+    seeds = sorted(d for d in glob.glob(os.path.join(VERIF, "seeded", "*")) if os.path.isdir(d) and
+                   os.path.basename(d).split("-")[0] == prop and os.path.exists(os.path.join(d, "patch.diff")))
+    bpatches = sorted(d for d in glob.glob(os.path.join(VERIF, "selftest", "benign_patches", "*")) if os.path.exists(os.path.join(d, "patch.diff")))
+    sf, sm, ss, bs, ba, bk = [], [], [], [], [], []
+    with concurrent.futures.ProcessPoolExecutor(max_workers=jobs) as ex:
+        fs = [(d, ex.submit(st.run_patch, os.path.join(d, "patch.diff"), [prop])) for d in seeds]
+        fb = [(d, ex.submit(st.run_patch, os.path.join(d, "patch.diff"), [prop])) for d in bpatches]
+        for d, f in fs:
+            r = f.result()
+            nm = os.path.basename(d)
+            if r is None:
+                ss.append(nm)
+            else:
+                (sf if r.get(prop) else sm).append(nm)
+        for d, f in fb:
+            r = f.result()
+            nm = os.path.basename(d)
+            if r is None:
+                bk.append(nm)
+            else:
+                (ba if r.get(prop) else bs).append(nm)
+    out.update({"seeds_fired": sf, "seeds_missed": sm, "seeds_skipped": ss,
+                "benign_patches_silent": len(bs), "benign_patches_false_alarm": ba, "benign_patches_skipped": bk})
     ctx.note("selftest", out)
     return out
